@@ -7,7 +7,11 @@ RULE = ("random context-free grammars as in C08; get_generating_symbols / get_nu
         "get_reachable_symbols / is_empty / is_finite are compared with the Lean model, get_words(n) for n=0..5 and "
         "unbounded (when the model proves the language finite) with the independent bounded-language oracle. "
         "Non-trivial: >=2 productions, one with a body of length >=2.")
-THEOREMS = ["Pfl.CFG.mem_generating_iff",
+THEOREMS = ["Pfl.CFG.isFinite_isSome",
+            "Pfl.CFG.getWords_isSome",
+            "Pfl.CFG.getWords_unbounded_terminates_iff",
+            "Pfl.CFG.genCounters_isSome",
+            "Pfl.CFG.mem_generating_iff",
             "Pfl.CFG.mem_nullable_iff",
             "Pfl.CFG.mem_reachable_iff",
             "Pfl.CFG.isEmpty_iff",
